@@ -142,6 +142,8 @@ def _cp_post(it, env):
     stored = z3.Select(r.arr, user)
     if res is None:
         return z3.And(z3.Not(known), untouched, z3.Select(r.dom, user) == known)
+    if "hash" not in g["seen"]:
+        return False  # a verdict was given without consulting the context
     upgraded = z3.And(g["ok"], g["has_new"])
     return z3.And(known, it.to_zbool(it.truth(res)) == g["ok"], untouched, z3.Select(r.dom, user),
                   stored == z3.If(upgraded, g["new_hash"], z3.Select(g["arr0"], user)),
